@@ -115,3 +115,134 @@ def body_of(fn, must_escape, c):
         return "\\u%04x" % c
     a = c - 0x10000
     return "\\u%04x\\u%04x" % (0xD800 + (a >> 10), 0xDC00 + (a & 0x3FF))
+
+
+# ------------------------------------------------------------------------------------------
+def ref_decode(body):
+    """RFC 8259 section 7 string-body decoder (reference): returns str or None (reject).
+    Lone surrogate escapes are rejected (they denote no Unicode scalar value)."""
+    out = []
+    i = 0
+    n = len(body)
+    while i < n:
+        b = body[i]
+        if b != 0x5C:
+            j = i
+            while j < n and body[j] != 0x5C:
+                j += 1
+            try:
+                out.append(bytes(body[i:j]).decode("utf-8"))
+            except UnicodeDecodeError:
+                return None
+            i = j
+            continue
+        if i + 1 >= n:
+            return None
+        c = body[i + 1]
+        simple = {0x22: '"', 0x5C: "\\", 0x2F: "/", 0x62: "\b", 0x66: "\f", 0x6E: "\n", 0x72: "\r", 0x74: "\t"}
+        if c in simple:
+            out.append(simple[c])
+            i += 2
+            continue
+        if c != 0x75:
+            return None
+
+        def hex4(k):
+            if k + 4 > n:
+                return None
+            try:
+                s = bytes(body[k:k + 4]).decode("ascii")
+            except UnicodeDecodeError:
+                return None
+            if not all(ch in "0123456789abcdefABCDEF" for ch in s):
+                return None
+            return int(s, 16)
+
+        cp = hex4(i + 2)
+        if cp is None:
+            return None
+        i += 6
+        if 0xD800 <= cp <= 0xDBFF:
+            if i + 1 < n and body[i] == 0x5C and body[i + 1] == 0x75:
+                lo = hex4(i + 2)
+                if lo is None or not (0xDC00 <= lo <= 0xDFFF):
+                    return None
+                out.append(chr(0x10000 + ((cp - 0xD800) << 10) + (lo - 0xDC00)))
+                i += 6
+            else:
+                return None
+        elif 0xDC00 <= cp <= 0xDFFF:
+            return None
+        else:
+            out.append(chr(cp))
+    return "".join(out)
+
+
+def decode_family(tier):
+    fam = []
+    for x in range(256):
+        fam.append([0x5C, x])
+        fam.append([0x61, 0x5C, x, 0x62])
+    cps = ["0000", "0008", "001f", "0020", "007F", "0080", "07ff", "0800", "d7ff", "D800", "dbff", "DC00", "dfff", "e000", "FFFF", "00e9", "65E5"]
+    for h in cps:
+        fam.append(list(("\\u" + h).encode()))
+        fam.append(list(("x\\u" + h + "y").encode()))
+    for pos in range(4):
+        for ch in "09afAFgG/:@` \"\\\x00\xff":
+            h = list("0041")
+            h[pos] = ch
+            fam.append(list(b"\\u") + [ord(c) & 0xFF for c in h])
+    for hi in ("D800", "dbff", "D83D"):
+        for lo in ("DBFF", "DC00", "DE00", "dfff", "E000", "0041", "D800"):
+            fam.append(list(("\\u%s\\u%s" % (hi, lo)).encode()))
+            fam.append(list(("a\\u%s\\u%sb" % (hi, lo)).encode()))
+        for sep in ("\\n", "x", "\\", "\\U", " "):
+            fam.append(list(("\\u%s%s" % (hi, sep)).encode()))
+    full = list(b"\\uD83D\\uDE00")
+    for cut in range(len(full) + 1):
+        for extra in ([], [0x41], [0x22], [0x5C]):
+            fam.append(full[:cut] + extra)
+            fam.append([0x7A] + full[:cut] + extra)
+    fam += [[], [0x5C], [0x61, 0x5C], list("é日😀".encode()), [0x61, 0xC3], [0xFF], [0xC3, 0x28], list(b"plain ascii text"), list(b"a\\\\b\\\"c\\/d")]
+    return fam
+
+
+def rule_json_decoder(progs, tier, name="CHARMAP(decode_escapes)"):
+    """json::light::decode_escapes evaluated from MIR on a boundary-complete family of string
+    bodies: every byte after a backslash, \\u escapes at every code-point boundary and with every
+    hex-digit class at every position, surrogate pairs (valid, reversed, lone, followed by other
+    escapes), every truncation of a surrogate pair, and raw UTF-8 runs.  It must never panic,
+    and must decode exactly as RFC 8259 section 7 defines (reject = Err)."""
+    out = []
+    for cfg, P in progs.items():
+        res = RuleResult(name, cfg)
+        out.append(res)
+        I = Interp(P, max_steps=400000)
+        from .stdmodel import StrBuf
+
+        bad = None
+        n = 0
+        try:
+            for body in decode_family(tier):
+                r = I.call("json::light::decode_escapes", [Slice(list(body), 0, len(body))])
+                exp = ref_decode(body)
+                n += 1
+                if r.vname == "Ok":
+                    got = bytes(r.fields[0].b).decode("utf-8", "surrogatepass") if isinstance(r.fields[0], StrBuf) else None
+                else:
+                    got = None
+                if got != exp and bad is None:
+                    bad = (body, got, exp)
+        except Panic as e:
+            res.bad("%s:panic" % name, "decode_escapes panics on string body %r: %s" % (bytes(body), e))
+            continue
+        except (Unsupported, KeyError) as e:
+            res.bad("%s:evaluate" % name, "cannot evaluate decode_escapes on %r: %s" % (bytes(body), e))
+            continue
+        res.cells += n
+        res.engines += 1
+        if bad:
+            res.bad("%s:map" % name, "decode_escapes(%r) gives %r, RFC 8259 section 7 gives %r" % (bytes(bad[0]), bad[1], bad[2]))
+        else:
+            res.ok({"fn": "json::light::decode_escapes", "bodies": n})
+    return out
